@@ -31,6 +31,11 @@ def extra_networks(n0, k1, k2):
         # consumed at the firing time and given back by the delayed part (gene busy during transcription), non-mass-action rate
         spec('S6_returned_reactant', [A, B, C], {A: n0, B: 0, C: 3},
              [dict(hill('hillpositive', [A], [], k1, 2.0, 1.0, C), delay=dict(type='fixed', delay=0.6, reactants=[], products=[A, B])), ma([B], [], k2)]),
+        # a Gaussian delay with half of its mass below zero (a negative sample completes the reaction at once), and a Gamma delay
+        spec('S8_gaussian_negative', [A, B], {A: n0 + 1, B: 0},
+             [dict(ma([A], [], k1), delay=dict(type='gaussian', mean=0.05, std=0.5, reactants=[], products=[B]))]),
+        spec('S9_gamma_delay', [A, B, C], {A: n0 + 1, B: 0, C: 0},
+             [dict(ma([A], [C], k1), delay=dict(type='gamma', k=1.5, theta=0.2, reactants=[], products=[B, B])), ma([B], [], k2)]),
         # the under-supplied reactions are NOT the first ones of the model (per-reaction scan state must be reset)
         spec('S7_late_consumers', [A, B, C], {A: n0, B: 1, C: 2},
              [ma([B], [A], k2), gen([A], [B], ('num', 1.7)), gen([C], [], ('num', 1.1)), gen([A, C], [B], ('num', 0.6))]),
